@@ -54,6 +54,20 @@ def predict (input : String) : Option (String × String × String) :=   -- (mode
     else
       let (m, sp) := sigNeg kt how neg
       some (s!"sign=ok len={sigLen kt} honest=ok neg={m}", sp, m)
+  | ["bls", nS, _, neg] => do
+    -- BLS12-381 G2 multi-message signature (112 bytes): any other message vector, key or signature is refused
+    let n ← nS.toNat?
+    let negF := neg.splitOn ":"
+    let arg (i : Nat) : Nat := ((negF.getD i "0").toNat?).getD 0
+    let applies : Bool := match negF.headD "" with
+      | "none" => false
+      | "chg" => arg 1 < n
+      | "swap" => arg 1 < n && arg 2 < n && arg 1 != arg 2
+      | "drop" => n > 1
+      | "app" => true | "key" => true | "flip" => true
+      | _ => false
+    let m := if applies then "fail" else "na"
+    pure (s!"sign=ok len=112 honest=ok neg={m}", m, m)
   | ["mac", _, neg] =>
     let m := if neg == "none" then "na" else "fail"
     some (s!"sign=ok len=37 honest=ok neg={m}", m, m)   -- HMAC-SHA256 tag behind the 5-byte Tink key prefix
